@@ -479,7 +479,7 @@ def _execute(plan, w, tr):
             reached = tr.probes.get("server_hits", 0) > hits0
             w.next_resp = None
             tr.ev("client", "fetch", f"{txid[:8]}|{net}|{st.get('fresh', False)}|{kind if reached else 'cache'}|{out}")
-            tr.state("fetch", kind if reached else "cache", out.split(":")[0], ent["segwit"], ent["canonical"])
+            tr.state("fetch", kind if reached else "cache", out.split(":")[0], ent["segwit"], ent["canonical"], min(len(TxFetcher.cache), 6), bool(st.get("fresh")))
             outcomes.append(out)
             if r is not None and reached and w.served and w.served[-1][0] == txid:
                 # F1 on the delivered bytes: whatever the fetcher accepted must hash (witness-stripped, by the reference) to the requested id
@@ -567,6 +567,7 @@ def _execute(plan, w, tr):
                 out = "raised:" + type(e).__name__
             w.next_resp = None
             tr.ev("client", "lazy", f"{st.get('what', 'value')}|{kind}|{out}")
+            tr.state("lazy", st.get("what", "value"), kind, out.split(":")[0], min(len(TxFetcher.cache), 6))
             outcomes.append(out)
             tr.oracle("F1_lazy")
             if val is not None and val != exp:
@@ -745,6 +746,7 @@ def _execute(plan, w, tr):
                     continue
                 tr.fault(("edit_" if not k.startswith("use_") else "") + k)
                 tr.ev("client", "edit", k)
+                tr.state("hist", k, segwit, bool(st.get("via_api")), (st.get("spend_db") or {}).get("vout"), (st.get("spend_db") or {}).get("wit") if segwit else None)
                 check(k)
         elif op == "broadcast":
             # a transaction built through the API (constructors, no parsing), serialised, sent to the explorer, which parses it with
